@@ -2,6 +2,7 @@ import ChemProofs.Drv.C12
 import ChemProofs.Drv.Comp
 import ChemProofs.Drv.Peaks
 import ChemProofs.Drv.Spec
+import ChemProofs.Drv.Formula
 /- Model driver: `driver <mode>` reads op lines on stdin, prints one observation line per op. -/
 open Chem.Drv
 
@@ -22,6 +23,9 @@ def main (args : List String) : IO UInt32 := do
     return 0
   | ["spec"] => do
     loop (← IO.getStdin) runSpecCase
+    return 0
+  | ["formula"] => do
+    loop (← IO.getStdin) runFormulaCase
     return 0
   | ["peaks"] => do
     loop (← IO.getStdin) runPeaksCase
